@@ -1000,3 +1000,97 @@ def no_negative_zero_slices(ctx, rule, funcs, what):
                 f'{f.name}: `{src(s, 40)}` is the WHOLE sequence when `{src(k, 30)}` is 0 (nothing guards that case): {what}',
             )
     ctx.count('computed_tail_slices', n)
+
+
+FS_PROBES = {'os.stat', 'os.lstat', 'os.path.exists', 'os.path.isfile', 'os.path.getsize', 'os.path.getmtime', 'os.path.lexists', 'os.access', 'os.path.samefile'}
+FS_PROBE_METHODS = {'exists', 'is_file', 'stat', 'lstat', 'samefile'}
+
+
+def restore_ignores_target_state(ctx, rule):
+    """What restore writes is decided by the snapshots alone.  It never inspects what the target path already holds
+    (size, mtime, existence) to decide that a file "is already there": restore itself pre-allocates every target at its
+    final length with a fresh mtime, so a failed run leaves files that pass any such test while holding zeros."""
+    corpus = ctx.corpus
+    cls = repo_cls(corpus)
+    fn = corpus.func('repository', 'Repository.restore')
+    seen, work = {}, [fn]
+    while work:
+        f = work.pop()
+        if f.key in seen:
+            continue
+        seen[f.key] = f
+        for g in f.all_nested():
+            work.append(g)
+        for c in calls_in(f.node):
+            if isinstance(c.func, ast.Attribute) and isinstance(c.func.value, ast.Name) and c.func.value.id == 'self':
+                m = cls.methods.get(c.func.attr)
+                if m is not None and m.name not in ('restore_metadata', '_load_snapshots') and len(seen) < 40:
+                    work.append(m)
+    n = 0
+    for f in seen.values():
+        if f.name in ('_download_snapshot_threadsafe', '_get_cached', '_store_cached', '_delete_cached'):
+            continue
+        probes = [c for c in calls_in(f.node) if (dotted(c.func) or '') in FS_PROBES or (isinstance(c.func, ast.Attribute) and c.func.attr in FS_PROBE_METHODS and not (dotted(c.func) or '').startswith(('self.', 'os.')))]
+        n += 1
+        for c in probes:
+            ctx.analysed(f)
+        ctx.check(
+            not probes,
+            rule,
+            f'{func_label(f)}|restore-does-not-probe-the-target',
+            loc(f, probes[0]) if probes else loc(f, f.node),
+            f'{f.name}: does not inspect existing files',
+            f'{f.name}: `{src(probes[0], 60) if probes else ""}` inspects what is already on disk on the way through restore: a decision based on it (e.g. "same size and a recent mtime - already in place") '
+            'accepts the zero-filled files a failed restore leaves behind - restore reports success over wrong bytes',
+        )
+    ctx.floor(rule, 'functions on the restore path', n, 3)
+
+
+def run_flags_are_per_run(ctx, rule, commands=('snapshot', 'restore')):
+    """The events a command uses to stop its own threads belong to that call.  An event that lives on the Repository
+    object (set by one run or by close(), never cleared) is still set when the same object runs the command again: the
+    producer / the loaders stop at once and the command "succeeds" with a snapshot that references chunks never
+    uploaded, or files never written."""
+    corpus = ctx.corpus
+    cls = repo_cls(corpus)
+    from ..cfg import cfg_of
+
+    n = 0
+    for cmd in commands:
+        fn = corpus.func('repository', f'Repository.{cmd}')
+        funcs = [fn] + list(fn.all_nested())
+        for f in funcs:
+            for c in calls_in(f.node):
+                if not (isinstance(c.func, ast.Attribute) and c.func.attr in ('is_set', 'wait') and not c.args):
+                    continue
+                recv = c.func.value
+                origin = None
+                if isinstance(recv, ast.Attribute) and isinstance(recv.value, ast.Name) and recv.value.id == 'self':
+                    origin = recv.attr
+                elif isinstance(recv, ast.Name):
+                    for g in funcs:
+                        for a in walk_local(g.node):
+                            if isinstance(a, ast.Assign) and any(isinstance(t, ast.Name) and t.id == recv.id for t in a.targets) and isinstance(a.value, ast.Attribute) and isinstance(a.value.value, ast.Name) and a.value.value.id == 'self':
+                                origin = a.value.attr
+                if c.func.attr == 'wait' and origin is None:
+                    continue
+                n += 1
+                if origin is None:
+                    continue
+                ctx.analysed(f)
+                # cleared at the start of the command?
+                cfg = cfg_of(fn.node)
+                clears = [enclosing_stmt(x) for x in calls_in(fn.node) if isinstance(x.func, ast.Attribute) and x.func.attr == 'clear' and isinstance(x.func.value, ast.Attribute) and x.func.value.attr == origin]
+                clears += [a for a in walk_local(fn.node) if isinstance(a, ast.Assign) and any(isinstance(t, ast.Attribute) and t.attr == origin for t in a.targets)]
+                cn = [x for s_ in clears for x in cfg.nodes_of(s_, ('stmt', 'ok'))]
+                fresh = bool(cn) and cfg.path(cfg.entry, [cfg.exit], avoid=cn, kinds=('normal',)) is None
+                ctx.check(
+                    fresh,
+                    rule,
+                    f'{func_label(f)}|stop-flag-belongs-to-the-run:{origin}',
+                    loc(f, c),
+                    f'{cmd}: the stop flag self.{origin} is reset at the start of every run',
+                    f'{cmd}: `{src(c, 40)}` consults self.{origin}, an event that lives on the Repository object and is not reset when {cmd} starts: once set (a failed run, close()) it stops the '
+                    f'threads of every later {cmd} on this object at once - the command ends "successfully" with chunks never uploaded / files never written',
+                )
+    ctx.count('stop_flag_reads', n)
